@@ -58,7 +58,6 @@ LEVEL_NOTE = ('theorems over the reals about the hand-written model Model/Smp.le
               'OuterPlume.update; the tie to /repo is slot-wise agreement at Float on every generated case; closures '
               '(alpha_s, Ep, densities, particle properties) enter as the values the real objects hold')
 
-SLOT_NAMES = {0: 'volume', 1: 'momentum', 2: 'salt', 3: 'heat'}
 
 
 def audit_files():
@@ -366,6 +365,7 @@ def run(ctx, lean_ok):
     plan = scenario_plan(ctx)
     per_scen = ctx.n(160, 1500)
     records = []          # (sc, case, res)
+    raised = []
     seen = set()
     for si, (n_sol, n_inert, bg) in enumerate(plan):
         spec = S.random_spec(r, n_sol, n_inert, bg)
@@ -395,8 +395,10 @@ def run(ctx, lean_ok):
             try:
                 res = run_real(sc, objs, case)
             except Exception as e:
-                # the real code refuses the state (e.g. EOS failure on an extreme perturbation): not a case
+                # the real code refuses the state (e.g. EOS failure on an extreme perturbation): not a case,
+                # but counted — see the obligation 'real code evaluates the generated state pairs' below
                 ctx.count('real-code-raised:%s' % type(e).__name__)
+                raised.append('%s: %s (kind=%s z=%r)' % (type(e).__name__, str(e)[:120], case['kind'], case['z']))
                 continue
             ctx.evaluations += 1
             ctx.count('kind ' + case['kind'])
@@ -425,6 +427,12 @@ def run(ctx, lean_ok):
                 ctx.sample({'kind': case['kind'], 'z': float(case['z']), 'particles': len(sc.particles),
                             'chems': list(sc.chem_names), 'derivs_inner[0:4]': vec(res['ri'][:4]),
                             'derivs_outer[0:4]': vec(res['ro'][:4])})
+
+    nfin = sum(1 for _sc, _c, res in records if res['finite'])
+    ntot = len(records) + len(raised)
+    ctx.oblige('real code evaluates the generated state pairs (at most 5%% rejected or non-finite; %d generated)' % ntot,
+               ntot > 0 and nfin >= 0.95 * ntot,
+               '%d raised, %d non-finite of %d; first: %s' % (len(raised), len(records) - nfin, ntot, raised[:2]))
 
     # ---- property predicates on the REAL vectors ----------------------------------------
     nviol = 0
